@@ -2,7 +2,7 @@
    Model: Decl.p_pointer / p_declarator (declast.Parser.pointer / declarator), Render.render_dtor / render_decl
    (Ptr / Declarator / Declaration.gen_decl_work).  The specifier-list part is dyn/C09_tables.v. *)
 From Coq Require Import List NArith ZArith Bool Arith String.
-From Shroud Require Import Base.Ustr Model.Splicer Model.Lexer Model.Expr Model.Decl Model.Render Proof.Render.
+From Shroud Require Import Base.Ustr Model.Splicer Model.Lexer Model.Expr Model.Decl Model.Render Proof.Render Proof.RoundTrip Proof.RenderLex.
 Import ListNotations.
 
 (* every chain of pointers and references with const / volatile at every level is recorded exactly as written:
@@ -43,12 +43,38 @@ Theorem C09_c_rendering_is_pointer_form : forall d, render_dtor true d = render_
 Proof. exact c_rendering_is_pointer_form. Qed.
 Print Assumptions C09_c_rendering_is_pointer_form.
 
-(* The full round trip  parse (render (parse d)) = parse d  for declarations without default values is NOT proved here
-   (it needs the lexer/unparser spacing argument); it is evaluated on the model and on the implementation by the
-   harness for every generated declaration.  Concrete instances (tests, not the universal claim): *)
+(* ---- the whole-declaration round trip, for the fragment [in_fragment] /\ [text_fragment]:
+   built-in type words in any number, const / volatile on the type, pointer / reference chains with qualifiers at every
+   level, function-pointer declarators nested to any depth, parameter lists nested to any depth (each parameter again
+   in the fragment), "(void)", a trailing const; no storage class, template argument, array suffix, attribute or
+   default value, and the declared names are identifiers that are not type names in scope.
+   Outside the fragment (named types, templates, arrays, attributes) the round trip is evaluated by the harness on the
+   model and on the implementation for every generated declaration; the harness also counts how many of its cases
+   fall inside the fragment (evidence: fragment:in / fragment:out). ---- *)
+
+(* on tokens: the parser reads back exactly the declaration, and leaves what follows untouched *)
+Theorem C09_declaration_recorded_as_written : forall c d rest fuel,
+  in_fragment c d = true -> ends_decl rest -> dsize d < fuel ->
+  p_declaration fuel c (decl_toks d ++ rest) = Ok (d, rest).
+Proof. exact declaration_roundtrip. Qed.
+Print Assumptions C09_declaration_recorded_as_written.
+
+(* Shroud's rendering of the declaration is a text whose tokens are exactly those *)
+Theorem C09_rendering_lexes_to_its_tokens : forall c d,
+  in_fragment c d = true -> text_fragment d = true -> tokenize (render_decl d) = decl_toks d.
+Proof. exact rendering_lexes_to_its_tokens. Qed.
+Print Assumptions C09_rendering_lexes_to_its_tokens.
+
+(* hence: re-parsing Shroud's own rendering yields the same declaration (no bound on depth or length; the parser's
+   own fuel is shown to suffice) *)
+Theorem C09_reparse_of_rendering_is_identity : forall c d,
+  in_fragment c d = true -> text_fragment d = true -> parse_statement c (render_decl d) = Ok (SDecl d).
+Proof. exact reparse_rendering. Qed.
+Print Assumptions C09_reparse_of_rendering_is_identity.
+
 Definition rt_ctx : pctx :=
   {| cur_id := 1; cur_is_class := false; cur_name := []; scope := [];
-     known_types := [cp "int"; cp "void"; cp "double"; cp "char"; cp "long"; cp "unsigned_int"; cp "long_long"] |}.
+     known_types := [cp "int"; cp "void"; cp "double"; cp "char"; cp "long"; cp "unsigned_int"; cp "long_long"; cp "unsigned_long_long"] |}.
 Definition roundtrips (s : string) : bool :=
   match reparse rt_ctx (cp s) with
   | Ok (SDecl d, _, Ok (SDecl d')) => ueqb (render_decl d) (render_decl d')
@@ -60,3 +86,18 @@ Example C09_roundtrip_examples :
      "void f(int *a +intent(out)+dimension(n), int n +implied(size(a)))"; "int a[3][n+1]"; "char const * const s"; "static const int z"]%string
   = true.
 Proof. vm_compute. reflexivity. Qed.
+
+(* the hypotheses of the round-trip theorems are met by non-trivial declarations: these parse, and what they parse to
+   is in the fragment *)
+Definition in_both (s : string) : bool :=
+  match parse_statement rt_ctx (cp s) with
+  | Ok (SDecl d) => in_fragment rt_ctx d && text_fragment d
+  | _ => false
+  end.
+Example C09_fragment_is_inhabited :
+  forallb in_both
+    ["int * const * volatile p"; "const volatile unsigned int x"; "int (*fp)(int a, double * const b)"; "long long f(void) const";
+     "void (* * const fpp)(int (*inner)(double * x), char c)"; "char const * const s"; "double & r"; "unsigned long long int * * & q";
+     "int f(int (*cb)(const char * msg, void * data), void * data)"]%string = true
+  /\ in_both "Foo x" = false /\ in_both "int a[3]" = false /\ in_both "int x +intent(in)" = false.
+Proof. vm_compute. repeat split; reflexivity. Qed.
